@@ -142,7 +142,7 @@ fn from_abstract(j: &Value) -> Option<WCall> {
 }
 
 pub const BAD_COLORS: [&str; 12] = ["", "#", "red", "#12345", "#1234567", "#zzzzzz", "#12345\u{e9}", "123456789", "#+1+2+3", "\u{1F600}", "#\u{e9}\u{e9}\u{e9}", "######"];
-pub const OK_COLORS: [&str; 5] = ["#123456", "abcdef80", "#FFFFFF", "00000000", "#0a0B0c"];
+pub const OK_COLORS: [&str; 8] = ["#123456", "abcdef80", "#FFFFFF", "00000000", "#0a0B0c", "#11223344", "#FFFFFF80", "ABCDEF"];
 
 /// programs: the alphabet (JSON array of abstract calls) and the behaviours (JSON lines {prog: [indices]}) exported by TLC
 pub fn wasm(sink: &mut Sink, seed: u64, thorough: bool, alphabet: &str, behaviours: &str) {
